@@ -80,11 +80,17 @@ Definition k_ctl (op fd events : Z) (k : kern) : Z * kern :=
       else (0, mkkern (kremove fd (kn_list k)) (kn_ready k))
   end.
 
-(* what the kernel would report for an entry now: (ready & (requested | ERR | HUP)) if armed *)
+(* what the kernel would report for an entry now: (ready & ((requested & (IN|OUT|RDHUP)) | ERR | HUP)) if armed,
+   written bit by bit (the mock kernel of the harness computes it with `&`; only these five bits can appear) *)
+Definition bit_if (c : bool) (b : Z) : Z := if c then b else 0.
 Definition reportable (k : kern) (e : kent) : Z :=
   if ke_armed e then
-    Z.land (assoc (ke_fd e) (kn_ready k))
-           (Z.lor (Z.land (ke_events e) (Z.lor (Z.lor EPOLLIN EPOLLOUT) EPOLLRDHUP)) (Z.lor EPOLLERR EPOLLHUP))
+    let r := assoc (ke_fd e) (kn_ready k) in
+    let ev := ke_events e in
+    Z.lor (bit_if (has r EPOLLIN && has ev EPOLLIN) EPOLLIN)
+   (Z.lor (bit_if (has r EPOLLOUT && has ev EPOLLOUT) EPOLLOUT)
+   (Z.lor (bit_if (has r EPOLLRDHUP && has ev EPOLLRDHUP) EPOLLRDHUP)
+   (Z.lor (bit_if (has r EPOLLERR) EPOLLERR) (bit_if (has r EPOLLHUP) EPOLLHUP))))
   else 0.
 
 (* epoll_wait(maxevents): scan the interest list in order; one-shot and edge-triggered entries are disarmed
@@ -172,7 +178,32 @@ Definition set_data (ints data : Z) (e : ife) : ife :=
         (if has ints EV_WRITE then data else i_wr e)
         (if has ints EV_ERROR then data else i_er e).
 
-(* epoll.cpp 118-170 *)
+(* epoll.cpp 165-169 (label ok:) *)
+Definition add_finish (fd ints data eint : Z) (s : st) : Z * st :=
+  let entry := tab_get fd (s_tab s) in
+  let e1 := mkife (Z.lor (i_int entry) eint) (i_rd entry) (i_wr entry) (i_er entry) in
+  (0, upd_tab (tab_set fd (set_data ints data e1) (s_tab s)) s).
+
+(* epoll.cpp 147-163: the epoll_ctl attempt(s) for the merged interests [eint] with operation [op] *)
+Definition add_attempt (fd ints data op eint : Z) (s : st) : Z * st :=
+  let events := translate eint in
+  if has eint ONE_SHOT then
+    let events := Z.lor events EPOLLONESHOT in
+    if op =? CTL_MOD then
+      let '(r, s1) := ctl fd op events ENOENT s in
+      if r =? 0 then add_finish fd ints data eint s1
+      else if 0 <? r then
+        let '(r2, s2) := ctl fd CTL_ADD events 0 s1 in
+        if r2 <? 0 then (-1, s2) else add_finish fd ints data eint s2
+      else (-1, s1)
+    else
+      let '(r2, s2) := ctl fd op events 0 s in
+      if r2 <? 0 then (-1, s2) else add_finish fd ints data eint s2
+  else
+    let '(r2, s2) := ctl fd op events 0 s in
+    if r2 <? 0 then (-1, s2) else add_finish fd ints data eint s2.
+
+(* epoll.cpp 118-146 *)
 Definition add_interest (fd ints data : Z) (s : st) : Z * st :=
   if fd <? 0 then (-1, upd_errno EINVAL s)
   else if ints =? 0 then (0, s)
@@ -181,28 +212,7 @@ Definition add_interest (fd ints data : Z) (s : st) : Z * st :=
     let ints := Z.land ints EV_RWEO in
     let entry := tab_get fd (s_tab s) in
     let eint0 := Z.land (i_int entry) EV_RWEO in
-    let finish (eint : Z) (s : st) : Z * st :=                           (* ok: *)
-      let entry := tab_get fd (s_tab s) in
-      let e1 := mkife (Z.lor (i_int entry) eint) (i_rd entry) (i_wr entry) (i_er entry) in
-      (0, upd_tab (tab_set fd (set_data ints data e1) (s_tab s)) s) in
-    let attempt (op eint : Z) (s : st) : Z * st :=
-      let events := translate eint in
-      if has eint ONE_SHOT then
-        let events := Z.lor events EPOLLONESHOT in
-        if op =? CTL_MOD then
-          let '(r, s1) := ctl fd op events ENOENT s in
-          if r =? 0 then finish eint s1
-          else if 0 <? r then
-            let '(r2, s2) := ctl fd CTL_ADD events 0 s1 in
-            if r2 <? 0 then (-1, s2) else finish eint s2
-          else (-1, s1)
-        else
-          let '(r2, s2) := ctl fd op events 0 s in
-          if r2 <? 0 then (-1, s2) else finish eint s2
-      else
-        let '(r2, s2) := ctl fd op events 0 s in
-        if r2 <? 0 then (-1, s2) else finish eint s2 in
-    if eint0 =? 0 then attempt CTL_ADD ints s
+    if eint0 =? 0 then add_attempt fd ints data CTL_ADD ints s
     else if has (Z.lxor eint0 ints) ONE_SHOT then (-1, upd_errno EALREADY s)
     else
       let inter := Z.land ints eint0 in
@@ -210,7 +220,7 @@ Definition add_interest (fd ints data : Z) (s : st) : Z * st :=
                   (Z.lor (if i_wr entry =? data then 0 else EV_WRITE)
                          (if i_er entry =? data then 0 else EV_ERROR)) in
       if has inter dmask then (-1, upd_errno EALREADY s)
-      else attempt CTL_MOD (Z.lor eint0 ints) s.
+      else add_attempt fd ints data CTL_MOD (Z.lor eint0 ints) s.
 
 (* epoll.cpp 172-199 *)
 Definition rm_interest (fd ints : Z) (s : st) : Z * st :=
